@@ -115,18 +115,41 @@ def obligations(tier):
     quick = tier == "quick"
     out = []
     for N in ([3] if quick else [3, 4, 6, 8]):
-        for var in (["bvs", "si"] if not quick else ["bvs", "si"]):
-            for shape in lhs_shapes(N):
+        for var in ["bvs", "sic0", "sic1", "sic2", "si1", "si"]:
+            if var == "si" and (quick or N > 3):
+                continue   # fully symbolic annotation: thorough tier, smallest width
+            if var == "si1" and (quick or N > 4):
+                continue   # symbolic bounds, stride 1: thorough tier
+            for si_, shape in enumerate(lhs_shapes(N)):
                 for op in CMPS:
                     for side in ("l", "r"):
-                        if quick and var == "si" and (side == "r" or op in ("UGT", "SGT", "SLT", "ULT")):
+                        if quick and var != "bvs" and (side == "r" or op not in ("ULE", "SGE", "eq") or shape not in SI_QUICK_SHAPES):
                             continue
-                        if quick and side == "r" and op not in ("ULE", "SGE", "eq"):
-                            continue
-                        out.append((f"c2si:{var}:{N}:c|{shape}|{op}|{side}", {"N": N, "var": var, "name": f"c|{shape}|{op}|{side}"}))
+                        if quick and var == "bvs":
+                            # quick tier: the ordered comparisons alternate between shapes (every rule still meets an upper-bound,
+                            # a lower-bound, a signed and a reversed comparison); the thorough tier runs all of them on every shape
+                            allowed = {("ULE", "l"), ("SGE", "l"), ("eq", "l"), ("ne", "l")} if si_ % 2 == 0 else \
+                                      {("UGE", "l"), ("SLT", "l"), ("ULE", "r"), ("eq", "l"), ("ne", "l")}
+                            if (op, side) not in allowed:
+                                continue
+                        out.append((f"c2si:{var}:{N}:c|{shape}|{op}|{side}",
+                                    {"N": N, "var": "si" if var != "bvs" else "bvs", "stride1": var == "si1", "conc": _conc(var, N), "name": f"c|{shape}|{op}|{side}"}))
             for shape in bool_shapes(N):
-                out.append((f"c2si:{var}:{N}:b|{shape}", {"N": N, "var": var, "name": f"b|{shape}"}))
+                if quick and var != "bvs":
+                    continue
+                out.append((f"c2si:{var}:{N}:b|{shape}", {"N": N, "var": "si" if var != "bvs" else "bvs", "stride1": var == "si1", "conc": _conc(var, N), "name": f"b|{shape}"}))
     return out
+
+
+def _conc(var, N):
+    """concrete annotations (stride, lb, ub) for x and y of the sicK variants"""
+    if not var.startswith("sic"):
+        return None
+    m = (1 << N) - 1
+    return {"sic0": [[1, 1, m - 2], [1, 0, m >> 1]], "sic1": [[2, 0, m - 1], [1, 2, 3]], "sic2": [[0, m >> 1, m >> 1], [1, 0, m]]}[var]
+
+
+SI_QUICK_SHAPES = {"x", "x+k", "x-k", "ext-low", "zext", "concat0x", "and-lowmask", "if-cmp", "shl1"}
 
 
 def _mk_vars(cl, N, var, A=None, Bv=None, native=None):
@@ -159,7 +182,14 @@ def run_obligation(oid, params, tier):
     zconsts = {str(t): t for t in (*zk, *A, *Bv, zx, zy, z3.Bool("b"))}
     pre = []
     if var == "si":
-        pre = [vsaglue.wellformed(*A), vsaglue.wellformed(*Bv)]
+        # annotated variables: well-formed, non-wrapping (lb <=u ub) intervals; wrapping strided operands are the subject of
+        # C21/C22 (and of their known findings)
+        pre = [vsaglue.wellformed(*A), vsaglue.wellformed(*Bv), z3.ULE(A[1], A[2]), z3.ULE(Bv[1], Bv[2])]
+        if params.get("conc"):
+            ca, cb = params["conc"]
+            pre += [A[i] == z3.BitVecVal(ca[i], N) for i in range(3)] + [Bv[i] == z3.BitVecVal(cb[i], N) for i in range(3)]
+        if params.get("stride1"):
+            pre += [A[0] == z3.If(A[1] == A[2], z3.BitVecVal(0, N), z3.BitVecVal(1, N)), Bv[0] == z3.If(Bv[1] == Bv[2], z3.BitVecVal(0, N), z3.BitVecVal(1, N))]
     dom = [vsaglue.member(zx, *A), vsaglue.member(zy, *Bv)] if var == "si" else []
     known = common.known_for(common.load_known("C25"), oid)
 
@@ -169,7 +199,7 @@ def run_obligation(oid, params, tier):
             if pre:
                 E.ENG.assume(z3.And(*pre))
             K = [glue.BVV(glue.mk(k), N) for k in zk]
-            x, y = _mk_vars(claripy, N, var, A, Bv)
+            x, y = _mk_vars(claripy, N, var, A, Bv, native=params.get("conc"))
             c = build_constraint(claripy, N, name, x, y, K)
             if not isinstance(c, claripy.ast.Bool):
                 return None
